@@ -124,7 +124,14 @@ def main():
                 for fn in sorted(os.listdir(corpus_dir)):
                     if fn.endswith(".json"):
                         mod.replay(ctx, json.load(open(os.path.join(corpus_dir, fn))), corpus=fn)
-            mod.correspondence(ctx)
+            try:
+                mod.correspondence(ctx)
+            except Exception as e:
+                # disagreements recorded before the harness tripped (typically over the very output that is wrong) are still reported
+                # with their replay; the error itself is reported only when there is nothing better
+                if not [d for d in ctx.disagreements if d["in_domain"]]:
+                    raise
+                ctx.notes.append("harness error after the first disagreement: %r" % e)
             if problems and not [d for d in ctx.disagreements if d["in_domain"]]:
                 # a proof obligation broke but nothing disagreed: search harder for a failing input
                 ctx.scale = max(ctx.scale, 5)
